@@ -853,6 +853,9 @@ def m_cmp(e, args, info):
     if isinstance(a, (str, SymStr, FmtStr)) and isinstance(b, (str, SymStr, FmtStr)):
         x, y = concretize_str(e, a), concretize_str(e, b)
         return EnumV(ORD, (x > y) - (x < y), {})
+    if isinstance(a, VecV) and isinstance(b, VecV) and all(isinstance(x, int) for x in a.items + b.items):
+        x, y = list(a.items), list(b.items)
+        return EnumV(ORD, (x > y) - (x < y), {})
     raise Unsupported('symbolic cmp')
 
 
@@ -1181,6 +1184,40 @@ def m_starts_with(e, args, info):
     if isinstance(s, str) and isinstance(p, str):
         return s.startswith(p)
     raise Unsupported('starts_with on symbolic string')
+
+
+@exact('core::str::split')
+def m_str_split(e, args, info):
+    s = e.deref(args[0])
+    pat = args[1]
+    pat = chr(pat) if isinstance(pat, int) else e.deref(pat)
+    if not isinstance(s, str):
+        raise Unsupported('split on symbolic string')
+    return ListIt(list(s.split(pat)))
+
+
+@exact('std::string::String::new')
+def m_string_new(e, args, info):
+    return ''
+
+
+@exact('std::string::String::is_empty')
+def m_string_is_empty(e, args, info):
+    return e.deref(args[0]) == ''
+
+
+@exact('std::string::String::push')
+def m_string_push(e, args, info):
+    r = args[0]
+    e.store(r.cell, r.proj, e.load(r.cell, r.proj) + chr(args[1]))
+    return unit()
+
+
+@exact('std::string::String::push_str')
+def m_string_push_str(e, args, info):
+    r = args[0]
+    e.store(r.cell, r.proj, e.load(r.cell, r.proj) + e.deref(args[1]))
+    return unit()
 
 
 @exact('core::str::chars')
